@@ -21,7 +21,6 @@ import (
 	"runtime"
 	"runtime/debug"
 	"sync"
-	"time"
 )
 
 type stringer struct{ v int }
@@ -232,11 +231,10 @@ func main() {
 			crash(kind)
 			close(done) // only reached when the kind does not crash
 		}()
-		select {
-		case <-done:
-		case <-time.After(20 * time.Second):
-			println("OWN: goroutine did not finish")
-		}
+		// no deadline of the program's own: on a loaded machine a stack overflow needs longer than any
+		// fixed wait, and the run that lost the race would differ from the other (a false alarm met at
+		// load average 77); a goroutine that never finishes is the harness watchdog's business
+		<-done
 	case "defer":
 		func() {
 			defer func() {
@@ -344,8 +342,8 @@ func checkC10(c *Ctx) {
 				env = []string{"GOTRACEBACK=" + tc.tb}
 			}
 			args := []string{tc.kind, tc.ctx}
-			pr := runBin(plainBin, args, env, 60*time.Second)
-			tr := runBin(bin, args, env, 60*time.Second)
+			pr := runBin(plainBin, args, env, 4*time.Minute)
+			tr := runBin(bin, args, env, 4*time.Minute)
 			if pr.TimedOut || tr.TimedOut {
 				if pr.TimedOut {
 					c.Inconclusive("regular crash program timed out on " + tc.kind)
